@@ -76,6 +76,12 @@ def init(repo: str, so_path: str | None, config: dict) -> None:
     else:
         assert backend == "pendulum._helpers", backend
         assert pendulum.parsing.parse_iso8601.__module__ == "pendulum.parsing.iso8601"
+    amb = config.get("ambient") or {}
+    if "ws" in amb:        # process-wide settings no property's results may depend on (unless it says so)
+        pendulum.week_starts_at(pendulum.WeekDay(amb["ws"]))
+        pendulum.week_ends_at(pendulum.WeekDay((amb["ws"] + 6) % 7))
+    if "locale" in amb:
+        pendulum.set_locale(amb["locale"])
     signal.signal(signal.SIGALRM, _alarm)
     signal.signal(signal.SIGPROF, _alarm)
     CTX.clear()
